@@ -336,9 +336,11 @@ pub fn ascii_only(seq: &[u8]) -> Vec<u8> {
 pub fn check_python(c: &OneCase) -> Verdict {
     let mut v = Verdict::new();
     let rt = rank_table(c.k);
-    let seq = ascii_only(&stretched(&c.seq, c.min_len));
+    // bytes >= 0x80 become multi-byte characters (every byte of which is ambiguous for the model)
+    let seq = super::c01::utf8_safe(&stretched(&c.seq, c.min_len));
     classify(&mut v, &seq, &rt);
     v.class("python");
+    v.class_if(seq.iter().any(|&b| b >= 0x80), "python-non-ascii");
     let tol = if c.norm { 1e-12 } else { 0.0 };
     let ask = |s: &[u8]| -> Result<Vec<f64>, String> {
         let r = crate::pyworker::ask(&serde_json::json!({"op": "oligo", "k": c.k, "norm": c.norm, "seq": crate::pyworker::hex(s)}))?;
@@ -355,7 +357,10 @@ pub fn check_python(c: &OneCase) -> Verdict {
         v.fail(format!("python-{}", s), format!("pykmertools.OligoComputer({}).vectorise_one: {}", c.k, m));
         return v;
     }
-    for (name, variant) in [("revcomp", model::revcomp_text(&seq)), ("lower", lower(&seq)), ("t2u", t2u(&seq))] {
+    // variants are formed on the generated bytes and then turned into text (reversing UTF-8 bytes would not be text)
+    let raw = stretched(&c.seq, c.min_len);
+    for (name, variant) in [("revcomp", model::revcomp_text(&raw)), ("lower", lower(&raw)), ("t2u", t2u(&raw))] {
+        let variant = super::c01::utf8_safe(&variant);
         match ask(&variant) {
             Ok(r) => {
                 if r.len() != base.len() || r.iter().zip(base.iter()).any(|(a, b)| (a - b).abs() > tol) {
